@@ -331,7 +331,12 @@ def _run_chunk(check, verif_seed, tier, indices, slot, progress):
         d = int(out.digest or '0', 16)
         part['all'].add(d)
         if out.nontrivial:
-            part['nt'].add(d)
+            extra = getattr(out, 'nt_digests', None)
+            if extra:
+                for x in extra:
+                    part['nt'].add(int(x, 16))
+            else:
+                part['nt'].add(d)
         for k, v in out.probes.items():
             part['probes'][k] = part['probes'].get(k, 0) + v
         for k, v in out.faults.items():
@@ -486,7 +491,7 @@ def run_batch(check, verif_seed, tier, index_iter, deadline=None, workers=None,
 
 def replay_in_fresh_process(check, case_path, timeout=120):
     """Returns (status, text): status 'violation', 'ok', 'harness', 'crash', 'hang'"""
-    cmd = [sys.executable, os.path.join(VERIF, 'check'), check.pid, '--replay', case_path]
+    cmd = [sys.executable, '-B', os.path.join(VERIF, 'runcheck.py'), check.pid, '--replay', case_path]
     env = dict(os.environ)
     env['VERIF_REPLAY_QUIET'] = '1'
     try:
@@ -495,8 +500,10 @@ def replay_in_fresh_process(check, case_path, timeout=120):
     except subprocess.TimeoutExpired as e:
         return 'hang', (e.stdout or b'').decode('utf-8', 'replace')[-2000:]
     text = p.stdout.decode('utf-8', 'replace')
-    if p.returncode == 1:
+    if p.returncode == 1 and 'REPLAY %s clause=' % check.pid in text:
         return 'violation', text
+    if p.returncode == 1:
+        return 'harness', 'replay process exited 1 without a REPLAY line: ' + text[-1500:]
     if p.returncode == 0:
         return 'ok', text
     if p.returncode < 0:
